@@ -97,8 +97,11 @@ package ggql
 
 //@ func (*Fragment).Validate
 //@   check accumulate {C10}
-//@   props C03
+//@   props C03 C10
 //@   check panic {C03}
+//@   ensures[misplaced-directive]{C10} old(misplacedUpTo(recv.Dirs, LocFragmentDefinition, len(recv.Dirs))) ==> len(errs) > 0
+//@   loop 0: invariant[bounds] rangeindex+1 <= old(len(recv.Dirs))
+//@           invariant[found]{C10} old(misplacedUpTo(recv.Dirs, LocFragmentDefinition, rangeindex+1)) ==> len(errs) > 0
 //@   requires recv != nil
 //@   requires root != nil
 
@@ -114,12 +117,26 @@ package ggql
 //@   requires recv != nil
 //@   requires a != nil
 
+//@ -- a field of a request: a name, no argument given twice, and every directive applied to it is a directive that declares the
+//@ -- location FIELD ("applies an unknown or misplaced directive ... carries an error")
+//@ spec misplacedUpTo(ds []*DirectiveUse, loc Location, n int) bool = exists j int {ds[j]} :: 0 <= j && j < n && misplaced(ds[j], loc)
+//@ spec dupArgUpTo(as []*ArgValue, n int) bool = exists i int, j int {as[i], as[j]} :: 0 <= i && i < j && j < n && as[i].Arg == as[j].Arg
 //@ func (*Field).Validate
 //@   check accumulate {C10}
-//@   props C03
+//@   props C03 C10
 //@   check panic {C03}
 //@   requires recv != nil
 //@   requires root != nil
+//@   ensures[empty-name]{C10} old(len(recv.Name) == 0) ==> len(errs) > 0
+//@   ensures[duplicate-argument]{C10} old(dupArgUpTo(recv.Args, len(recv.Args))) ==> len(errs) > 0
+//@   ensures[misplaced-directive]{C10} old(misplacedUpTo(recv.Dirs, LocField, len(recv.Dirs))) ==> len(errs) > 0
+//@   loop 0: invariant[bounds] rangeindex+1 <= old(len(recv.Args))
+//@           invariant[empty-name]{C10} old(len(recv.Name) == 0) ==> len(errs) > 0
+//@           invariant[seen-args]{C10} forall k string {dups[k]} :: has(dups, k) <==> (exists i int {old(recv.Args[i])} :: 0 <= i && i <= rangeindex && old(recv.Args[i].Arg) == k)
+//@           invariant[found]{C10} old(dupArgUpTo(recv.Args, rangeindex+1)) ==> len(errs) > 0
+//@   loop 1: invariant[bounds] rangeindex+1 <= old(len(recv.Dirs))
+//@           invariant[earlier]{C10} old(len(recv.Name) == 0 || dupArgUpTo(recv.Args, len(recv.Args))) ==> len(errs) > 0
+//@           invariant[found]{C10} old(misplacedUpTo(recv.Dirs, LocField, rangeindex+1)) ==> len(errs) > 0
 
 //@ func (*Field).write
 //@   props C03
@@ -232,11 +249,21 @@ package ggql
 //@   requires recv != nil
 //@   requires w != nil
 
+//@ -- extending a union: every member of the extension is appended, in order, after the members the union had; none is lost
 //@ func (*Union).Extend
-//@   props C03
+//@   props C03 C08
 //@   check panic {C03}
 //@   requires recv != nil
 //@   requires x != nil && ptrval(x) != 0
+//@   requires[not-itself] is(x, *Union) ==> as(x, *Union) != recv && !samearray(recv.Members, as(x, *Union).Members)
+//@   results err
+//@   ensures[members-appended]{C08} err == nil && is(x, *Union) ==> len(recv.Members) == old(len(recv.Members)) + old(len(as(x, *Union).Members)) && (forall k int {recv.Members[k]} :: 0 <= k && k < old(len(recv.Members)) ==> recv.Members[k] == old(recv.Members[k])) && (forall j int {old(as(x, *Union).Members[j])} :: 0 <= j && j < old(len(as(x, *Union).Members)) ==> recv.Members[old(len(recv.Members)) + j] == old(as(x, *Union).Members[j]))
+//@   loop 0: invariant[bounds] rangeindex+1 <= len(ux.Members)
+//@           invariant[extension-unchanged] ux.Members == old(ux.Members) && (forall j int {ux.Members[j]} :: 0 <= j && j < len(ux.Members) ==> ux.Members[j] == old(ux.Members[j]))
+//@           invariant[length]{C08} len(recv.Members) == old(len(recv.Members)) + rangeindex + 1
+//@           invariant[kept]{C08} forall k int {recv.Members[k]} :: 0 <= k && k < old(len(recv.Members)) ==> recv.Members[k] == old(recv.Members[k])
+//@           invariant[added]{C08} forall j int {ux.Members[j]} :: 0 <= j && j <= rangeindex ==> recv.Members[old(len(recv.Members)) + j] == ux.Members[j]
+//@   loop 1: invariant[members-unchanged] recv.Members == atouter(recv.Members) && (forall k int {recv.Members[k]} :: 0 <= k && k < len(recv.Members) ==> recv.Members[k] == atouter(recv.Members[k]))
 
 //@ func (*Error).Error
 //@   props C03
@@ -245,8 +272,11 @@ package ggql
 
 //@ func (*VarDef).Validate
 //@   check accumulate {C10}
-//@   props C03
+//@   props C03 C10
 //@   check panic {C03}
+//@   ensures[misplaced-directive]{C10} old(misplacedUpTo(recv.Dirs, LocVariableDefinition, len(recv.Dirs))) ==> len(errs) > 0
+//@   loop 0: invariant[bounds] rangeindex+1 <= old(len(recv.Dirs))
+//@           invariant[found]{C10} old(misplacedUpTo(recv.Dirs, LocVariableDefinition, rangeindex+1)) ==> len(errs) > 0
 //@   requires recv != nil
 //@   requires root != nil
 
@@ -306,8 +336,11 @@ package ggql
 
 //@ func (*Inline).Validate
 //@   check accumulate {C10}
-//@   props C03
+//@   props C03 C10
 //@   check panic {C03}
+//@   ensures[misplaced-directive]{C10} old(misplacedUpTo(recv.Dirs, LocInlineFragment, len(recv.Dirs))) ==> len(errs) > 0
+//@   loop 0: invariant[bounds] rangeindex+1 <= old(len(recv.Dirs))
+//@           invariant[found]{C10} old(misplacedUpTo(recv.Dirs, LocInlineFragment, rangeindex+1)) ==> len(errs) > 0
 //@   requires recv != nil
 //@   requires root != nil
 
@@ -332,8 +365,11 @@ package ggql
 
 //@ func (*FragRef).Validate
 //@   check accumulate {C10}
-//@   props C03
+//@   props C03 C10
 //@   check panic {C03}
+//@   ensures[misplaced-directive]{C10} old(misplacedUpTo(recv.Dirs, LocFragmentSpread, len(recv.Dirs))) ==> len(errs) > 0
+//@   loop 0: invariant[bounds] rangeindex+1 <= old(len(recv.Dirs))
+//@           invariant[found]{C10} old(misplacedUpTo(recv.Dirs, LocFragmentSpread, rangeindex+1)) ==> len(errs) > 0
 //@   requires recv != nil
 //@   requires root != nil
 
@@ -344,10 +380,15 @@ package ggql
 //@   requires buf != nil
 //@   requires depth >= 0
 
+//@ spec opLoc(op *Op) Location = ite(op.Type == OpQuery, LocQuery, ite(op.Type == OpMutation, LocMutation, ite(op.Type == OpSubscription, LocSubscription, "")))
 //@ func (*Op).Validate
 //@   check accumulate {C10}
-//@   props C03
+//@   props C03 C10
 //@   check panic {C03}
+//@   ensures[misplaced-directive]{C10} old(opLoc(recv) != "" && misplacedUpTo(recv.Dirs, opLoc(recv), len(recv.Dirs))) ==> len(errs) > 0
+//@   loop 0: invariant[bounds] rangeindex+1 <= old(len(recv.Dirs))
+//@           invariant[found]{C10} old(opLoc(recv) != "" && misplacedUpTo(recv.Dirs, opLoc(recv), rangeindex+1)) ==> len(errs) > 0
+//@   loop 1: invariant[earlier]{C10} old(opLoc(recv) != "" && misplacedUpTo(recv.Dirs, opLoc(recv), len(recv.Dirs))) ==> len(errs) > 0
 //@   requires recv != nil
 //@   requires root != nil
 
